@@ -495,6 +495,10 @@ theorem dead_operator_same_log (ops : List HubOp) (d : Nat) :
 /-! ### regenerated facts: the per-client lock and the write deadline -/
 
 open Gen.LockFacts in
+/-- the same on every control-flow path separately (regenerated `Gen.LockPaths`): no early return, branch or case of
+    any of these functions leaves a mutex held that a `defer` does not release -/
+theorem server_locks_balanced_every_path : pathsUnbalancedIn ["server", "service"] = [] := by decide
+
 /-- every function of cmd/server and pkg/service that takes a mutex releases it on every path
     (in particular SendEvent after a failed write) -/
 theorem server_locks_balanced : unbalancedIn ["server", "service"] = [] := by decide
